@@ -1237,11 +1237,14 @@ def entry_str(e):
 
 
 class CmRun:
-    def __init__(self, table, via_platform=False):
-        self.entries = {}           # id(tuple) -> uid
-        self.meta = {}              # uid -> (name, num, subs)
+    def __init__(self, table, via_platform=False, shared=None):
+        """`shared` = (io list, entries, meta): build this manager from an io list OBJECT that other managers
+        were (or will be) built from too - the way a board file's module-level `_io` is used by every platform
+        instance of a process."""
+        self.entries = {} if shared is None else shared[1]           # id(tuple) -> uid
+        self.meta = {} if shared is None else shared[2]              # uid -> (name, num, subs)
         self.keep = []
-        io = [self._mk(e) for e in table]
+        io = [self._mk(e) for e in table] if shared is None else shared[0]
         if via_platform:
             # the way designs reach the manager: GenericPlatform.request / request_all / lookup_request / ...
             self.api = GP.GenericPlatform("dev", io, CONNECTORS, name="c13")
@@ -1496,6 +1499,89 @@ def run_cm_history(table, ops, via_platform=False):
     return {"result": run.result_str(), "alarm": alarm, "nontrivial": nontrivial}
 
 
+# -- several managers / platforms built from ONE io list in one process ---------------------------------------
+def cm2_line(table, plan):
+    parts = ["cm2 " + " ".join(entry_str(e) for e in table)]
+    for i, op in plan:
+        parts.append("%d %s" % (i, cm_line([], [op]).split(" ; ", 1)[1]))
+    return " ; ".join(parts)
+
+
+def gen_cm2_history(rng):
+    table, ops = gen_cm_history(rng)
+    more = gen_cm_history(rng)[1]
+    # extension entries need fresh uids across both instances
+    uid = [max([e[0] for e in table] + [0]) + 100]
+
+    def refresh(op):
+        if op[0] != "X":
+            return op
+        es = []
+        for e in op[2]:
+            uid[0] += 1
+            es.append((uid[0], e[1], e[2], e[3]))
+        return ("X", op[1], tuple(es))
+
+    a, b = [refresh(o) for o in ops], [refresh(o) for o in more]
+    if rng.random() < 0.6:      # instance 0 first (extension / requests), then instance 1: the board-file scenario
+        k = rng.randint(1, len(a))
+        plan = [(0, o) for o in a[:k]] + [(1, o) for o in b] + [(0, o) for o in a[k:]]
+    else:
+        plan = [(0, o) for o in a] + [(1, o) for o in b]
+        rng.shuffle(plan)
+    return table, plan
+
+
+def run_cm2_history(table, plan, via_platform=False):
+    """Two managers created from the SAME io list object (instance 1 at its first use, i.e. possibly after
+    instance 0 has already extended / requested).  Oracles (real code only): every instance on its own satisfies
+    `cm_oracle` (no entry / pin granted twice); the caller's io list is never modified; and each instance behaves
+    exactly like a manager built alone from a fresh copy of the table (isolation)."""
+    proto = CmRun(table, False)                 # only to build the shared tuples and their uid maps
+    shared_io = list(proto.keep)
+    ids0 = [id(t) for t in shared_io]
+    shared = (shared_io, proto.entries, proto.meta)
+    inst, ents = {}, {}
+    alarm = None
+    nontrivial = 0
+    for k, (i, op) in enumerate(plan):
+        if i not in inst:
+            try:
+                inst[i] = CmRun(table, via_platform, shared=shared)
+            except Exception as e:
+                return {"result": "crash", "alarm": "constructing manager %d raised %s" % (i, type(e).__name__), "nontrivial": 0}
+            ents[i] = [e[0] for e in table]
+        run = inst[i]
+        out = run.apply(tuple(op))
+        nontrivial += out.startswith("g:") or out.startswith("f:")
+        if op[0] == "X":
+            ents[i] += [e[0] for e in op[2]]
+        if out.startswith("crash"):
+            return {"result": "crashed", "nontrivial": nontrivial,
+                    "alarm": alarm or "instance %d op %d %r: %s" % (i, k, list(op), run.alarm or out)}
+        if alarm is None:
+            msg = run.alarm
+            if msg is None and [id(t) for t in shared_io] != ids0:
+                msg = "the io list the managers were built from has been modified (%d entries, %d before)" % (len(shared_io), len(ids0))
+            if msg is None:
+                try:
+                    msg = cm_oracle(run, ents[i])
+                except KeyError:
+                    msg = "the manager holds a table entry that was never given to it"
+            if msg:
+                alarm = "instance %d after op %d %r: %s" % (i, k, list(op), msg)
+    res = []
+    for i in (0, 1):
+        res.append(inst[i].result_str() if i in inst else "-")
+    # isolation: the same sub-history on a manager built alone from a fresh copy of the table
+    for i in (0, 1):
+        if i in inst and alarm is None:
+            alone = run_cm_history(table, [op for j, op in plan if j == i], via_platform)
+            if alone["result"] != res[i]:
+                alarm = "instance %d (built from the io list another manager had used) behaves differently from a manager built alone: %s  vs alone  %s" % (i, res[i], alone["result"])
+    return {"result": " ## ".join(res), "alarm": alarm, "nontrivial": nontrivial}
+
+
 # ------------------------------------------------------------------------------------------------------------
 # CSR banks through the real SoC(...).finalize(): page capacity and bank address ranges
 _SIM_IO = [("sys_clk", 0, GP.Pins(1)), ("sys_rst", 0, GP.Pins(1))]
@@ -1511,6 +1597,8 @@ def banks_line(inp):
              "".join(" %d:%d" % (k, loc) for k, loc, _ in inp["banks"] if loc is not None)]
     for k, loc, regs in inp["banks"]:
         parts.append("B %d %s" % (k, " ".join("%dx%d" % (w, n) for w, n in regs)))
+    if inp.get("ram"):
+        parts.append("R %d %d" % (inp["base"] + inp["ram"][0], inp["ram"][1]))
     return " ; ".join(parts)
 
 
@@ -1527,6 +1615,15 @@ def build_banks_soc(inp):
         for k, loc, regs in inp["banks"]:
             if loc is not None:
                 soc.add_csr("b%d" % k, loc)            # fixed page, the SoC-level way
+        soc.c13_ram = "-"
+        if inp.get("ram"):
+            # another bus slave next to (or inside what must be) the CSR window; a refusal is caught (leaves no trace)
+            try:
+                soc.add_ram("xram", inp["base"] + inp["ram"][0], inp["ram"][1])
+                soc.c13_ram = "ok"
+            except SoCError:
+                envshim.quiet_stderr()
+                soc.c13_ram = "rej"
         for k, loc, regs in inp["banks"]:
             m = LiteXModule()
             j = 0
@@ -1562,6 +1659,28 @@ def banks_oracle(inp, soc):
             return "bank %s holds %d simple CSRs (0x%x bytes) in a page of 0x%x bytes: it spills into page %d" % (
                 name, ns, 4 * ns, paging, page + 1)
         ranges.append((reg.origin, reg.origin + 4 * ns, name))
+    # the CSR window on the bus: [csr_base, csr_base + 4*2^csr_address_width) (from the constructor arguments) must
+    # be what the `csr` bus region covers - it contains every page the handler can grant - and every bank address
+    # lies inside it and in no other bus region
+    creg = soc.bus.regions.get("csr")
+    if creg is None or "csr" not in soc.bus.slaves:
+        return "no `csr` bus slave/region after finalize"
+    need = 4 * 2 ** inp["csr_aw"]
+    if creg.origin != base or creg.size < need:
+        return ("the csr bus region is [0x%x,+0x%x); the CSR handler grants %d pages of 0x%x bytes from 0x%x, i.e. "
+                "[0x%x,+0x%x): page %d and above are not reachable through the csr slave" % (
+                    creg.origin, creg.size, n_locs, paging, base, base, need, max(creg.size, 0) // paging))
+    for a0, a1, name in ranges:
+        if not (creg.origin <= a0 and a1 <= creg.origin + creg.size):
+            return "bank %s [0x%x,0x%x) lies outside the csr bus region [0x%x,+0x%x)" % (name, a0, a1, creg.origin, creg.size)
+        for rn, r in soc.bus.regions.items():
+            if rn != "csr" and not r.linker and a0 < r.origin + win(r.size) and r.origin < a1:
+                return "bank %s [0x%x,0x%x) also lies in the window of bus region %s [0x%x,+0x%x)" % (
+                    name, a0, a1, rn, r.origin, win(r.size))
+    for rn, r in soc.bus.regions.items():
+        if rn != "csr" and not r.linker and base < r.origin + win(r.size) and r.origin < base + need:
+            return "bus region %s [0x%x,+0x%x) lies inside the CSR page window [0x%x,+0x%x)" % (
+                rn, r.origin, win(r.size), base, need)
     ranges.sort()
     for (a0, a1, n0), (b0, b1, n1) in zip(ranges, ranges[1:]):
         if b0 < a1:
@@ -1577,7 +1696,9 @@ def run_banks_case(inp, known=()):
         got = []
         for name, csrs, mapaddr, rmap in soc.csr_bankarray.banks:
             got.append("%d:%d:%d:%d" % (int(name[1:]), mapaddr, len(rmap.simple_csrs), soc.csr.regions[name].origin))
-        result = "ok # " + " ".join(got)
+        creg = soc.bus.regions.get("csr")
+        result = "ok # " + " ".join(got) + " # csr:%s:%s # ram:%s" % (
+            getattr(creg, "origin", None), getattr(creg, "size", None), soc.c13_ram)
         alarm = banks_oracle(inp, soc)
         for name, csrs, mapaddr, rmap in soc.csr_bankarray.banks:
             want = banks_nsimple(inp["csr_dw"], dict((k, r) for k, _, r in inp["banks"])[int(name[1:])])
@@ -1632,7 +1753,14 @@ def gen_banks_case(rng):
         if rng.random() < 0.35:
             loc = rng.choice([0, 1, 2, n_locs - 1, n_locs, rng.randrange(0, 8)])
         banks.append([k, loc, regs])
-    return {"kind": "banks", "csr_dw": D, "csr_aw": aw, "paging": paging, "base": base, "banks": banks}
+    inp = {"kind": "banks", "csr_dw": D, "csr_aw": aw, "paging": paging, "base": base, "banks": banks}
+    if rng.random() < 0.4:
+        # another slave around the CSR window: inside it (must be refused), right behind it, or far away
+        full = 4 * 2 ** aw
+        off = rng.choice([full // 4, full // 2, full - 0x1000, full, 2 * full, full // 4 + 0x800, 0x1000])
+        if base + off + 0x1000 <= 2 ** 32:
+            inp["ram"] = [off, rng.choice([0x100, 0x1000, 0x800])]
+    return inp
 
 
 # ------------------------------------------------------------------------------------------------------------
@@ -1698,6 +1826,14 @@ def _one_history(kind, rng, known, out):
                         "input": {"kind": "cm", "plat": plat, "table": [list(e) for e in table],
                                   "ops": [list(o) for o in ops]},
                         "nontrivial": res["nontrivial"], "nops": len(ops)})
+        elif kind == "cm2":
+            table, plan = gen_cm2_history(rng)
+            plat = int(rng.random() < 0.5)
+            res = run_cm2_history(table, plan, plat)
+            out.append({"kind": "cm2", "line": cm2_line(table, plan), "real": res["result"], "alarm": res["alarm"],
+                        "input": {"kind": "cm2", "plat": plat, "table": [list(e) for e in table],
+                                  "ops": [[i, list(o)] for i, o in plan]},
+                        "nontrivial": res["nontrivial"], "nops": len(plan)})
         elif kind == "banks":
             inp = gen_banks_case(rng)
             res = run_banks_case(inp, known)
@@ -1735,6 +1871,12 @@ def rerun_input(inp, known=()):
                for o in inp["ops"]]
         res = run_cm_history(table, ops, inp.get("plat", 0))
         return cm_line(table, ops), res["result"], res["alarm"], res
+    if k == "cm2":
+        table = [(e[0], e[1], e[2], tuple(e[3])) for e in inp["table"]]
+        fix = lambda o: ("X", o[1], tuple((e[0], e[1], e[2], tuple(e[3])) for e in o[2])) if o[0] == "X" else tuple(o)
+        plan = [(i, fix(o)) for i, o in inp["ops"]]
+        res = run_cm2_history(table, plan, inp.get("plat", 0))
+        return cm2_line(table, plan), res["result"], res["alarm"], res
     if k == "banks":
         res = run_banks_case(inp, known)
         return banks_line(inp), res["result"], res["alarm"], res
